@@ -1,6 +1,8 @@
 import PdtVerif.Lemmas.ErrorRate
 import PdtVerif.Lemmas.ErrorRateOracle
 import PdtVerif.Lemmas.ErrorRateBatch
+import PdtVerif.Lemmas.ErrorRateFast
+import PdtVerif.Lemmas.ErrorRatePad
 /-!
 # C02 — error rate counts the edits of some minimum-cost alignment
 
@@ -512,5 +514,192 @@ example := C02_prefix_batch_first_transpose (α := Int) ⟨some 0, false, false,
   [[1, 3], [2, 0]] [[2, 3], [1, 0]] 0 1 2 (by decide) (by decide)
 -- C02_pair_shapes: an accepted pair
 example : checkPairShapes true [2, 4] [2, 5] = some (2, 4, 5) := by decide
+
+/-! ### One-pass evaluation of the model (improvement round 2)
+
+The driver cannot run the literal model (`del_mat` minimum: cubic per step on lists; every row
+of the frozen loop kept) on sequence dimensions of a few hundred positions. For those it runs
+`Model/ErrorRateFast.lean`; these theorems say that this is the same function, for all inputs. -/
+
+/-- One-pass `error_rate` (sweep instead of `del_mat`, un-frozen fold over the valid hypothesis
+prefix) = the literal model, every column, every configuration. -/
+theorem C02_fast_scalar (cfg : Config α) (ref hyp : List α) :
+    errorRateColFast cfg ref hyp = errorRateCol cfg ref hyp :=
+  errorRateColFast_eq cfg ref hyp
+
+/-- One-pass `prefix_error_rates` (one scan for all prefixes) = the literal model. -/
+theorem C02_fast_prefix (cfg : Config α) (ref hyp : List α) :
+    prefixErrorRatesColFast cfg ref hyp = prefixErrorRatesCol cfg ref hyp :=
+  prefixErrorRatesColFast_eq cfg ref hyp
+
+/-- The same for whole batches (both layouts) and for the loss before reduction. -/
+theorem C02_fast_batch (cfg : Config α) (bf : Bool) (N : Nat) (ref hyp : List (List α)) (d : α) :
+    errorRateBatchFast cfg bf N ref hyp d = errorRateBatch cfg bf N ref hyp d ∧
+    prefixErrorRatesBatchFast cfg bf N ref hyp d = prefixErrorRatesBatch cfg bf N ref hyp d :=
+  ⟨errorRateBatchFast_eq cfg bf N ref hyp d, prefixErrorRatesBatchFast_eq cfg bf N ref hyp d⟩
+
+theorem C02_fast_mer (cfg : Config α) (subAvg bf : Bool) (N M : Nat)
+    (ref hyp : List (List (List α))) (w : List (List Rat)) (d : α) :
+    merElemsFast cfg subAvg bf N M ref hyp w d = merElems cfg subAvg bf N M ref hyp w d :=
+  merElemsFast_eq cfg subAvg bf N M ref hyp w d
+
+example : errorRateColFast (α := Int) ⟨some 0, true, true, ⟨1, 1, 1⟩, false, -100⟩ [1, 2, 0, 5] [2, 0, 0] = 1 / 3 := by
+  decide +kernel
+example : prefixErrorRatesColFast (α := Int) ⟨some 0, false, true, ⟨1, 2, 3⟩, false, -7⟩ [0, 1] [1, 0, 1]
+    = prefixErrorRatesCol ⟨some 0, false, true, ⟨1, 2, 3⟩, false, -7⟩ [0, 1] [1, 0, 1] := by
+  decide +kernel
+
+/-! ### Size independence (improvement round 2)
+
+The result depends on the two padded columns only through the transcripts they name: not on the
+sizes `R`, `H` of the tensors, not on what is stored behind the lengths, not on the eos
+convention used to mark the lengths. -/
+
+/-- **The table is causal in the reference.** Every row of the code's paired (cost, mistakes)
+table — freezing, `ins_mask`, `exclude_last` included — restricted to the columns `0..|r|`
+is the same whether the reference dimension holds `r` or `r ++ s`: nothing that follows
+position `|r|` (an eos, filler, further padding rows of the tensor) can influence a cell at or
+before `|r|`, in particular not the cell `gather(0, ref_lens)` reads, and not through
+tie-breaking either. All cost triples. -/
+theorem C02_table_causal (c : Costs) (r s hyp : List α) (hypLen : Nat) (excl : Bool) :
+    (rowsP c (r ++ s) hyp hypLen excl).map (fun row => row.take (r.length + 1))
+      = rowsP c r hyp hypLen excl := by
+  unfold rowsP
+  rw [rows_eq, rows_eq, List.map_map]
+  apply List.map_congr_left
+  intro k _
+  exact tableRow_append_take c r s _
+
+/-- **`error_rate` is a function of (`norm`, costs, the two transcripts).** Two calls — any two
+padded column lengths, any contents behind the lengths, any two eos / `include_eos`
+conventions — whose columns name the same transcripts report the same value. -/
+theorem C02_size_independent (cfg₁ cfg₂ : Config α) (ref₁ ref₂ hyp₁ hyp₂ : List α)
+    (hn : cfg₁.norm = cfg₂.norm) (hc : cfg₁.costs = cfg₂.costs)
+    (hr : cut cfg₁.eos cfg₁.includeEos ref₁ = cut cfg₂.eos cfg₂.includeEos ref₂)
+    (hh : cut cfg₁.eos cfg₁.includeEos hyp₁ = cut cfg₂.eos cfg₂.includeEos hyp₂) :
+    errorRateCol cfg₁ ref₁ hyp₁ = errorRateCol cfg₂ ref₂ hyp₂ :=
+  errorRateCol_congr_cut cfg₁ cfg₂ ref₁ ref₂ hyp₁ hyp₂ hn hc hr hh
+
+/-- The per-prefix variant: every reported entry (prefix `k` up to the hypothesis' length) is a
+function of (`norm`, costs, `exclude_last`, the two transcripts); the entries behind are
+padding by `C02_prefix`. -/
+theorem C02_size_independent_prefix (cfg₁ cfg₂ : Config α) (ref₁ ref₂ hyp₁ hyp₂ : List α)
+    (hn : cfg₁.norm = cfg₂.norm) (hc : cfg₁.costs = cfg₂.costs)
+    (hx : cfg₁.excludeLast = cfg₂.excludeLast)
+    (hr : cut cfg₁.eos cfg₁.includeEos ref₁ = cut cfg₂.eos cfg₂.includeEos ref₂)
+    (hh : cut cfg₁.eos cfg₁.includeEos hyp₁ = cut cfg₂.eos cfg₂.includeEos hyp₂)
+    (k : Nat)
+    (hk : k < (cut cfg₁.eos cfg₁.includeEos hyp₁).length + (if cfg₁.excludeLast then 0 else 1)) :
+    (prefixErrorRatesCol cfg₁ ref₁ hyp₁)[k]? = (prefixErrorRatesCol cfg₂ ref₂ hyp₂)[k]? :=
+  prefixErrorRatesCol_congr_cut cfg₁ cfg₂ ref₁ ref₂ hyp₁ hyp₂ hn hc hx hr hh k hk
+
+/-- **Appending padding.** Whatever is appended behind a reference and a hypothesis column that
+contain their eos leaves the error rate unchanged (a batch padded to a longer `R`, `H`). -/
+theorem C02_append_padding (cfg : Config α) (e : α) (he : cfg.eos = some e) (ref hyp p q : List α)
+    (hr : e ∈ ref) (hh : e ∈ hyp) :
+    errorRateCol cfg (ref ++ p) (hyp ++ q) = errorRateCol cfg ref hyp := by
+  apply C02_size_independent cfg cfg _ _ _ _ rfl rfl <;> rw [he]
+  · exact cut_append_of_mem e _ ref p hr
+  · exact cut_append_of_mem e _ hyp q hh
+
+/-- The per-prefix table under the same padding: the old table followed by one padding entry per
+appended hypothesis position. -/
+theorem C02_append_padding_prefix (cfg : Config α) (e : α) (he : cfg.eos = some e)
+    (ref hyp p q : List α) (hr : e ∈ ref) (hh : e ∈ hyp) :
+    prefixErrorRatesCol cfg (ref ++ p) (hyp ++ q)
+      = prefixErrorRatesCol cfg ref hyp ++ List.replicate q.length (cfg.padding : Rat) := by
+  have hcr : cut cfg.eos cfg.includeEos (ref ++ p) = cut cfg.eos cfg.includeEos ref := by
+    rw [he]; exact cut_append_of_mem e _ ref p hr
+  have hch : cut cfg.eos cfg.includeEos (hyp ++ q) = cut cfg.eos cfg.includeEos hyp := by
+    rw [he]; exact cut_append_of_mem e _ hyp q hh
+  have hsl : seqLen cfg.eos cfg.includeEos (hyp ++ q) = seqLen cfg.eos cfg.includeEos hyp := by
+    rw [← cut_length, ← cut_length, hch]
+  have hle := seqLen_le cfg.eos cfg.includeEos hyp
+  have hlen : ∀ r' h', (prefixErrorRatesCol cfg r' h').length
+      = h'.length + (if cfg.excludeLast then 0 else 1) := by
+    intro r' h'; rw [prefixErrorRatesCol_eq]; simp [prefixRows]
+  apply List.ext_getElem?
+  intro k
+  by_cases hk : k < (cut cfg.eos cfg.includeEos hyp).length + (if cfg.excludeLast then 0 else 1)
+  · -- a reported entry
+    have hk' := hk
+    rw [cut_length] at hk'
+    rw [List.getElem?_append_left (by rw [hlen]; omega)]
+    exact C02_size_independent_prefix cfg cfg _ _ _ _ rfl rfl rfl hcr hch k (by rw [hch]; exact hk)
+  · -- padding on both sides (or out of range on both sides)
+    rw [cut_length] at hk
+    by_cases hin : k < (hyp ++ q).length + (if cfg.excludeLast then 0 else 1)
+    · have hL : (prefixErrorRatesCol cfg (ref ++ p) (hyp ++ q))[k]? = some (cfg.padding : Rat) := by
+        rw [prefixErrorRatesCol_eq, List.getElem?_map,
+          List.getElem?_range (by simpa [prefixRows] using hin)]
+        simp only [Option.map_some]
+        rw [if_pos (by rw [hsl]; omega)]
+      rw [hL]
+      by_cases hin2 : k < hyp.length + (if cfg.excludeLast then 0 else 1)
+      · rw [List.getElem?_append_left (by rw [hlen]; exact hin2), prefixErrorRatesCol_eq,
+          List.getElem?_map, List.getElem?_range (by simpa [prefixRows] using hin2)]
+        simp only [Option.map_some]
+        rw [if_pos (by omega)]
+      · rw [List.getElem?_append_right (by rw [hlen]; omega), List.getElem?_replicate]
+        rw [if_pos]
+        rw [hlen]; rw [List.length_append] at hin; omega
+    · have h1 : (prefixErrorRatesCol cfg (ref ++ p) (hyp ++ q))[k]? = none := by
+        rw [List.getElem?_eq_none_iff, hlen]; omega
+      have h2 : (prefixErrorRatesCol cfg ref hyp ++ List.replicate q.length (cfg.padding : Rat))[k]?
+          = none := by
+        rw [List.getElem?_eq_none_iff, List.length_append, hlen, List.length_replicate]
+        rw [List.length_append] at hin; omega
+      rw [h1, h2]
+
+/-- **A padded batch is the un-padded call.** A sequence without eos, stored as `seq ++ eos ::
+anything` and read with `eos` set (`include_eos = false`), scores exactly like the bare
+sequences scored with `eos` unset. -/
+theorem C02_eos_padding_is_unpadded (cfg : Config α) (e : α) (ref hyp p q : List α)
+    (hr : e ∉ ref) (hh : e ∉ hyp) :
+    errorRateCol { cfg with eos := some e, includeEos := false } (ref ++ e :: p) (hyp ++ e :: q)
+      = errorRateCol { cfg with eos := none } ref hyp := by
+  refine C02_size_independent { cfg with eos := some e, includeEos := false } { cfg with eos := none }
+    _ _ _ _ rfl rfl ?_ ?_
+  · show cut (some e) false (ref ++ e :: p) = cut none cfg.includeEos ref
+    rw [cut_append_eos e ref p hr]; rfl
+  · show cut (some e) false (hyp ++ e :: q) = cut none cfg.includeEos hyp
+    rw [cut_append_eos e hyp q hh]; rfl
+
+/-- Batch level, sequence-first layout: padding rows appended to both tensors (`ref : (R, N)` →
+`(R + P, N)`, `hyp : (H, N)` → `(H + Q, N)`) leave every error rate of the batch unchanged,
+provided every sequence of the batch already contains its eos. -/
+theorem C02_batch_append_padding (cfg : Config α) (e : α) (he : cfg.eos = some e) (N : Nat)
+    (ref hyp pr ph : List (List α)) (d : α)
+    (hr : ∀ n, n < N → e ∈ column false ref n d) (hh : ∀ n, n < N → e ∈ column false hyp n d) :
+    errorRateBatch cfg false N (ref ++ pr) (hyp ++ ph) d = errorRateBatch cfg false N ref hyp d := by
+  unfold errorRateBatch toColumns
+  simp only [Bool.false_eq_true, if_false]
+  rw [List.zipWith_map, List.zipWith_map, List.zipWith_self, List.zipWith_self]
+  apply List.map_congr_left
+  intro n hn
+  have hn' := List.mem_range.1 hn
+  rw [List.map_append, List.map_append]
+  exact C02_append_padding cfg e he _ _ _ _ (hr n hn') (hh n hn')
+
+example : cut (α := Int) (some 0) false ([1, 2, 0, 7] ++ [0, 0, 5]) = cut (some 0) false [1, 2, 0, 7] := by decide
+example := C02_append_padding (α := Int) ⟨some 0, true, true, ⟨1, 1, 2⟩, false, -100⟩ 0 rfl
+  [1, 2, 0, 7] [2, 0] [0, 0, 5] [3, 3] (by decide) (by decide)
+example : errorRateCol (α := Int) ⟨some 0, true, true, ⟨1, 1, 2⟩, false, -100⟩ ([1, 2, 0, 7] ++ [0, 0, 5]) ([2, 0] ++ [3, 3])
+    = 1 / 3 := by decide +kernel
+example := C02_append_padding_prefix (α := Int) ⟨some 0, false, false, ⟨1, 2, 3⟩, false, -7⟩ 0 rfl
+  [1, 0] [1, 0, 1] [4] [5, 6] (by decide) (by decide)
+example : prefixErrorRatesCol (α := Int) ⟨some 0, false, false, ⟨1, 2, 3⟩, false, -7⟩ ([1, 0] ++ [4]) ([1, 0, 1] ++ [5, 6])
+    = [1, 0, -7, -7, -7, -7] := by decide +kernel
+example := C02_eos_padding_is_unpadded (α := Int) ⟨none, true, false, ⟨1, 1, 2⟩, false, -100⟩ 9
+  [1, 2, 3] [2, 3] [9, 4] [] (by decide) (by decide)
+example := C02_size_independent (α := Int) ⟨some 0, false, true, ⟨1, 1, 2⟩, false, -100⟩
+  ⟨some 9, true, true, ⟨1, 1, 2⟩, false, -100⟩ [1, 2, 0, 7] [1, 9, 5] [2, 0] [2, 9] rfl rfl
+example := C02_table_causal (α := Int) ⟨1, 1, 2⟩ [1, 2] [0, 7] [2, 0] 1 false
+example := C02_batch_append_padding (α := Int) ⟨some 0, false, false, ⟨1, 1, 2⟩, false, -100⟩ 0 rfl 2
+  [[1, 3], [2, 0], [0, 5]] [[2, 0], [0, 1]] [[7, 7]] [[8, 8], [0, 0]] 0
+  (by intro n hn; have : n = 0 ∨ n = 1 := by omega
+      rcases this with rfl | rfl <;> decide)
+  (by intro n hn; have : n = 0 ∨ n = 1 := by omega
+      rcases this with rfl | rfl <;> decide)
 
 end PdtVerif.ErrorRate
